@@ -10,7 +10,9 @@ Everything here holds for ALL virtual machines `vm` (no well-formedness assumpti
 * the decoding loop: `usableEntries`, `decodeAll_ok` (what the glyph list and the recorded composites are),
   `decodeAll_error`, `decodeAll_isOk_iff` (every usable charstring decodes or the whole loop fails);
 * composites: `resolveOne_*`, `resolveSeacs_some` (no nil dereference), `resolveSeacs_unchanged`,
-  `resolveSeacs_composite`;
+  `resolveSeacs_composite`, `resolveOne_parts_composite` (a composite built on composites is left alone),
+  `resolveSeacs_lookup` / `resolveSeacs_perm` / `glyphs_ext` (the result does not depend on the order of the
+  composites), `resolveSeacs_size_bound` (no glyph grows beyond twice the largest decoded glyph);
 * `.notdef`: `lookupG_addNotdef`, `names_addNotdef`;
 * the extraction as a whole: `stageOf`, `extract_ok` (decomposition of a successful extraction),
   `extract_no_panic`, `readFont_no_panic`.
@@ -402,161 +404,507 @@ theorem seacsOf_names (subrs : List (List Nat)) (lenIV : Int) (us : List (Bytes 
 
 /-! ## composites -/
 
-theorem resolveOne_names (gs gs' : List (Bytes × Glyph)) (si : SeacInfo)
-    (h : resolveOne gs si = some gs') : names gs' = names gs := by
+theorem resolveOne_names (comp : List Bytes) (gs gs' : List (Bytes × Glyph)) (si : SeacInfo)
+    (h : resolveOne comp gs si = some gs') : names gs' = names gs := by
   unfold resolveOne at h
   split at h
   · cases h; rfl
   · dsimp only at h
     split at h
-    · split at h
-      · cases h
-      · cases h; exact names_setG _ _ _
     · cases h; rfl
+    · split at h
+      · split at h
+        · cases h
+        · cases h; exact names_setG _ _ _
+      · cases h; rfl
 
 /-- the dereference of `glyphs[seac.name]` is safe as long as the composite's own name is a glyph -/
-theorem resolveOne_some (gs : List (Bytes × Glyph)) (si : SeacInfo) (h : si.name ∈ names gs) :
-    ∃ gs', resolveOne gs si = some gs' := by
+theorem resolveOne_some (comp : List Bytes) (gs : List (Bytes × Glyph)) (si : SeacInfo) (h : si.name ∈ names gs) :
+    ∃ gs', resolveOne comp gs si = some gs' := by
   unfold resolveOne
   split
   · exact ⟨_, rfl⟩
   · dsimp only
     split
-    · split
-      · rename_i hn
-        exact absurd h ((lookupG_eq_none_iff gs si.name).mp hn)
-      · exact ⟨_, rfl⟩
     · exact ⟨_, rfl⟩
+    · split
+      · split
+        · rename_i hn
+          exact absurd h ((lookupG_eq_none_iff gs si.name).mp hn)
+        · exact ⟨_, rfl⟩
+      · exact ⟨_, rfl⟩
 
-theorem resolveSeacs_some : ∀ (ss : List SeacInfo) (gs : List (Bytes × Glyph)),
-    (∀ si ∈ ss, si.name ∈ names gs) → ∃ gs', resolveSeacs ss gs = some gs' ∧ names gs' = names gs := by
+theorem resolveSeacs_some (comp : List Bytes) : ∀ (ss : List SeacInfo) (gs : List (Bytes × Glyph)),
+    (∀ si ∈ ss, si.name ∈ names gs) → ∃ gs', resolveSeacs comp ss gs = some gs' ∧ names gs' = names gs := by
   intro ss
   induction ss with
   | nil => intro gs _; exact ⟨gs, rfl, rfl⟩
   | cons si ss ih =>
     intro gs h
-    obtain ⟨g1, h1⟩ := resolveOne_some gs si (h si List.mem_cons_self)
-    have hn := resolveOne_names gs g1 si h1
+    obtain ⟨g1, h1⟩ := resolveOne_some comp gs si (h si List.mem_cons_self)
+    have hn := resolveOne_names comp gs g1 si h1
     obtain ⟨g2, h2, h3⟩ := ih g1 (fun s hs => by rw [hn]; exact h s (List.mem_cons_of_mem _ hs))
     refine ⟨g2, ?_, h3.trans hn⟩
     simp [resolveSeacs, h1, h2]
 
-theorem resolveSeacs_names : ∀ (ss : List SeacInfo) (gs gs' : List (Bytes × Glyph)),
-    resolveSeacs ss gs = some gs' → names gs' = names gs := by
+theorem resolveSeacs_names (comp : List Bytes) : ∀ (ss : List SeacInfo) (gs gs' : List (Bytes × Glyph)),
+    resolveSeacs comp ss gs = some gs' → names gs' = names gs := by
   intro ss
   induction ss with
   | nil => intro gs gs' h; simp [resolveSeacs] at h; rw [h]
   | cons si ss ih =>
     intro gs gs' h
     unfold resolveSeacs at h
-    cases h1 : resolveOne gs si with
+    cases h1 : resolveOne comp gs si with
     | none => simp [h1] at h
     | some g1 =>
       simp only [h1] at h
-      exact (ih g1 gs' h).trans (resolveOne_names gs g1 si h1)
+      exact (ih g1 gs' h).trans (resolveOne_names comp gs g1 si h1)
 
 /-- one turn of the loop leaves every glyph other than the composite itself as it was -/
-theorem resolveOne_other (gs gs' : List (Bytes × Glyph)) (si : SeacInfo) (n : Bytes)
-    (h : resolveOne gs si = some gs') (hn : n ≠ si.name) : lookupG gs' n = lookupG gs n := by
+theorem resolveOne_other (comp : List Bytes) (gs gs' : List (Bytes × Glyph)) (si : SeacInfo) (n : Bytes)
+    (h : resolveOne comp gs si = some gs') (hn : n ≠ si.name) : lookupG gs' n = lookupG gs n := by
   unfold resolveOne at h
   split at h
   · cases h; rfl
   · dsimp only at h
     split at h
-    · split at h
-      · cases h
-      · cases h; rw [lookupG_setG]; simp [hn]
     · cases h; rfl
+    · split at h
+      · split at h
+        · cases h
+        · cases h; rw [lookupG_setG]; simp [hn]
+      · cases h; rfl
 
 /-- the glyphs that are not composites come out of the loop unchanged: in particular a base glyph is not
 modified by the composites built on it -/
-theorem resolveSeacs_unchanged : ∀ (ss : List SeacInfo) (gs gs' : List (Bytes × Glyph)) (n : Bytes),
-    resolveSeacs ss gs = some gs' → (∀ si ∈ ss, si.name ≠ n) → lookupG gs' n = lookupG gs n := by
+theorem resolveSeacs_unchanged (comp : List Bytes) : ∀ (ss : List SeacInfo) (gs gs' : List (Bytes × Glyph)) (n : Bytes),
+    resolveSeacs comp ss gs = some gs' → (∀ si ∈ ss, si.name ≠ n) → lookupG gs' n = lookupG gs n := by
   intro ss
   induction ss with
   | nil => intro gs gs' n h _; simp [resolveSeacs] at h; rw [h]
   | cons si ss ih =>
     intro gs gs' n h hn
     unfold resolveSeacs at h
-    cases h1 : resolveOne gs si with
+    cases h1 : resolveOne comp gs si with
     | none => simp [h1] at h
     | some g1 =>
       simp only [h1] at h
       rw [ih g1 gs' n h (fun s hs => hn s (List.mem_cons_of_mem _ hs))]
-      exact resolveOne_other gs g1 si n h1 (fun e => hn si List.mem_cons_self e.symm)
+      exact resolveOne_other comp gs g1 si n h1 (fun e => hn si List.mem_cons_self e.symm)
 
-/-- the hypotheses under which one turn of the loop composes: both codes are in `0 … 255` and their names in the
-standard encoding are glyphs; `own` is the composite as its charstring was decoded -/
-structure Composable (gs : List (Bytes × Glyph)) (si : SeacInfo) (own base accent : Glyph) : Prop where
+/-- the hypotheses under which one turn of the loop composes: both codes are in `0 … 255`, their names in the
+standard encoding are not names of composites and are glyphs; `own` is the composite as its charstring was decoded -/
+structure Composable (comp : List Bytes) (gs : List (Bytes × Glyph)) (si : SeacInfo) (own base accent : Glyph) : Prop where
   codes : codesOK si.seac = true
+  baseNC : codeName si.seac.base ∉ comp
+  accentNC : codeName si.seac.accent ∉ comp
   base : lookupG gs (codeName si.seac.base) = some base
   accent : lookupG gs (codeName si.seac.accent) = some accent
   own : lookupG gs si.name = some own
 
+theorem contains_false_of_not_mem {comp : List Bytes} {n : Bytes} (h : n ∉ comp) : comp.contains n = false := by
+  cases hc : comp.contains n
+  · rfl
+  · exact absurd (List.contains_iff_mem.mp hc) h
+
+theorem contains_true_of_mem {comp : List Bytes} {n : Bytes} (h : n ∈ comp) : comp.contains n = true :=
+  List.contains_iff_mem.mpr h
+
 /-- one turn on a composable composite whose accent is not the composite itself -/
-theorem resolveOne_composite (gs : List (Bytes × Glyph)) (si : SeacInfo) (own base accent : Glyph)
-    (hc : Composable gs si own base accent) (ha : codeName si.seac.accent ≠ si.name) :
-    resolveOne gs si = some (setG gs si.name (composite own base accent.cmds si.seac)) := by
+theorem resolveOne_composite (comp : List Bytes) (gs : List (Bytes × Glyph)) (si : SeacInfo) (own base accent : Glyph)
+    (hc : Composable comp gs si own base accent) (ha : codeName si.seac.accent ≠ si.name) :
+    resolveOne comp gs si = some (setG gs si.name (composite own base accent.cmds si.seac)) := by
   unfold resolveOne
-  simp only [hc.codes, Bool.not_true, Bool.false_eq_true, if_false, hc.base, hc.accent, hc.own, beq_iff_eq, ha]
+  simp only [hc.codes, Bool.not_true, Bool.false_eq_true, if_false, hc.base, hc.accent, hc.own, beq_iff_eq, ha,
+    contains_false_of_not_mem hc.baseNC, contains_false_of_not_mem hc.accentNC, Bool.or_self]
 
-/-- the accent is the composite itself: the loop reads the commands it has just copied from the base -/
-theorem resolveOne_composite_self (gs : List (Bytes × Glyph)) (si : SeacInfo) (own base accent : Glyph)
-    (hc : Composable gs si own base accent) (ha : codeName si.seac.accent = si.name) :
-    resolveOne gs si = some (setG gs si.name (composite own base base.cmds si.seac)) := by
+/-- the accent is the composite itself and the composite's name is not in `comp` (this does not happen in `extract`,
+where `comp` holds the names of all composites): the loop reads the commands it has just copied from the base -/
+theorem resolveOne_composite_self (comp : List Bytes) (gs : List (Bytes × Glyph)) (si : SeacInfo) (own base accent : Glyph)
+    (hc : Composable comp gs si own base accent) (ha : codeName si.seac.accent = si.name) :
+    resolveOne comp gs si = some (setG gs si.name (composite own base base.cmds si.seac)) := by
+  have h2 : comp.contains si.name = false := by
+    rw [← ha]; exact contains_false_of_not_mem hc.accentNC
   unfold resolveOne
-  simp only [hc.codes, Bool.not_true, Bool.false_eq_true, if_false, hc.base, hc.accent, hc.own, beq_iff_eq, ha, if_true]
+  simp only [hc.codes, Bool.not_true, Bool.false_eq_true, if_false, hc.base, hc.accent, hc.own, beq_iff_eq, ha, if_true,
+    contains_false_of_not_mem hc.baseNC, h2, Bool.or_self]
 
-/-- a composite that cannot be composed (a code outside `0 … 255`, or naming no glyph) is left as decoded -/
-theorem resolveOne_skip (gs : List (Bytes × Glyph)) (si : SeacInfo)
-    (h : codesOK si.seac = false ∨ lookupG gs (codeName si.seac.base) = none ∨
-      lookupG gs (codeName si.seac.accent) = none) : resolveOne gs si = some gs := by
+/-- a composite whose base or accent is the name of a composite is left as decoded -/
+theorem resolveOne_parts_composite (comp : List Bytes) (gs : List (Bytes × Glyph)) (si : SeacInfo)
+    (h : codeName si.seac.base ∈ comp ∨ codeName si.seac.accent ∈ comp) : resolveOne comp gs si = some gs := by
   unfold resolveOne
-  rcases h with h | h | h
-  · simp [h]
-  · by_cases hc : codesOK si.seac = true
-    · simp [hc, h]
-    · simp [hc]
-  · by_cases hc : codesOK si.seac = true
+  by_cases hc : codesOK si.seac = true
+  · rcases h with h | h
+    · simp only [hc, Bool.not_true, Bool.false_eq_true, if_false, contains_true_of_mem h, Bool.true_or, if_true]
+    · simp only [hc, Bool.not_true, Bool.false_eq_true, if_false, contains_true_of_mem h, Bool.or_true, if_true]
+  · simp [hc]
+
+/-- a composite that cannot be composed (a code outside `0 … 255`, a part that is a composite, or a part naming
+no glyph) is left as decoded -/
+theorem resolveOne_skip (comp : List Bytes) (gs : List (Bytes × Glyph)) (si : SeacInfo)
+    (h : codesOK si.seac = false ∨ codeName si.seac.base ∈ comp ∨ codeName si.seac.accent ∈ comp ∨
+      lookupG gs (codeName si.seac.base) = none ∨ lookupG gs (codeName si.seac.accent) = none) :
+    resolveOne comp gs si = some gs := by
+  rcases h with h | h | h | h | h
+  · unfold resolveOne; simp [h]
+  · exact resolveOne_parts_composite comp gs si (Or.inl h)
+  · exact resolveOne_parts_composite comp gs si (Or.inr h)
+  · unfold resolveOne
+    by_cases hc : codesOK si.seac = true
     · simp only [hc, Bool.not_true, Bool.false_eq_true, if_false, h]
-      split <;> simp_all
+      split <;> rfl
+    · simp [hc]
+  · unfold resolveOne
+    by_cases hc : codesOK si.seac = true
+    · simp only [hc, Bool.not_true, Bool.false_eq_true, if_false, h]
+      split
+      · rfl
+      · split <;> simp_all
     · simp [hc]
 
-/-- **the whole loop**: a composite that occurs once in the list, whose base and accent are themselves not
-composites, ends up with the base's outline followed by the accent's outline moved by `(adx, ady)`, the base's
-stems and **its own width** — whatever other composites there are, on the same base or not, and in whatever order. -/
-theorem resolveSeacs_composite (pre post : List SeacInfo) (si : SeacInfo)
+/-- **the whole loop**: a composite that occurs once in the list, whose base and accent are not composites, ends up
+with the base's outline followed by the accent's outline moved by `(adx, ady)`, the base's stems and **its own
+width** — whatever other composites there are, on the same base or not, and in whatever order. -/
+theorem resolveSeacs_composite (comp : List Bytes) (pre post : List SeacInfo) (si : SeacInfo)
     (gs gs' : List (Bytes × Glyph)) (own base accent : Glyph)
-    (h : resolveSeacs (pre ++ si :: post) gs = some gs')
-    (hc : Composable gs si own base accent)
+    (h : resolveSeacs comp (pre ++ si :: post) gs = some gs')
+    (hc : Composable comp gs si own base accent)
     (hpre : ∀ s ∈ pre, s.name ≠ si.name) (hpost : ∀ s ∈ post, s.name ≠ si.name)
-    (hb : ∀ s ∈ pre, s.name ≠ codeName si.seac.base)
-    (ha : ∀ s ∈ pre, s.name ≠ codeName si.seac.accent)
-    (hself : codeName si.seac.accent ≠ si.name) :
+    (hcomp : ∀ s ∈ pre, s.name ∈ comp) (hself : si.name ∈ comp) :
     lookupG gs' si.name = some (composite own base accent.cmds si.seac) := by
+  have hne : codeName si.seac.accent ≠ si.name := fun e => hc.accentNC (e ▸ hself)
   induction pre generalizing gs with
   | nil =>
     simp only [List.nil_append, resolveSeacs] at h
-    rw [resolveOne_composite gs si own base accent hc hself] at h
+    rw [resolveOne_composite comp gs si own base accent hc hne] at h
     simp only at h
-    rw [resolveSeacs_unchanged post _ gs' si.name h hpost, lookupG_setG]
+    rw [resolveSeacs_unchanged comp post _ gs' si.name h hpost, lookupG_setG]
     have : si.name ∈ names gs := by
       rw [← lookupG_isSome_iff, hc.own]; rfl
     simp [this]
   | cons p pre ih =>
     simp only [List.cons_append, resolveSeacs] at h
-    cases h1 : resolveOne gs p with
+    cases h1 : resolveOne comp gs p with
     | none => simp [h1] at h
     | some g1 =>
       simp only [h1] at h
+      have hpc : p.name ∈ comp := hcomp p List.mem_cons_self
       have hp1 : si.name ≠ p.name := fun e => hpre p List.mem_cons_self e.symm
-      have hp2 : codeName si.seac.base ≠ p.name := fun e => hb p List.mem_cons_self e.symm
-      have hp3 : codeName si.seac.accent ≠ p.name := fun e => ha p List.mem_cons_self e.symm
-      refine ih g1 h ⟨hc.codes, ?_, ?_, ?_⟩ (fun s hs => hpre s (List.mem_cons_of_mem _ hs))
-        (fun s hs => hb s (List.mem_cons_of_mem _ hs)) (fun s hs => ha s (List.mem_cons_of_mem _ hs))
-      · rw [resolveOne_other gs g1 p _ h1 hp2]; exact hc.base
-      · rw [resolveOne_other gs g1 p _ h1 hp3]; exact hc.accent
-      · rw [resolveOne_other gs g1 p _ h1 hp1]; exact hc.own
+      have hp2 : codeName si.seac.base ≠ p.name := fun e => hc.baseNC (e ▸ hpc)
+      have hp3 : codeName si.seac.accent ≠ p.name := fun e => hc.accentNC (e ▸ hpc)
+      refine ih g1 h ⟨hc.codes, hc.baseNC, hc.accentNC, ?_, ?_, ?_⟩ (fun s hs => hpre s (List.mem_cons_of_mem _ hs))
+        (fun s hs => hcomp s (List.mem_cons_of_mem _ hs))
+      · rw [resolveOne_other comp gs g1 p _ h1 hp2]; exact hc.base
+      · rw [resolveOne_other comp gs g1 p _ h1 hp3]; exact hc.accent
+      · rw [resolveOne_other comp gs g1 p _ h1 hp1]; exact hc.own
+
+/-! ### what every name ends up as: the result does not depend on the order of the composites -/
+
+/-- the glyph the composite `si` becomes, from the glyphs as decoded (`own` is the composite as decoded) -/
+def resolvedGlyph (comp : List Bytes) (gs : List (Bytes × Glyph)) (si : SeacInfo) (own : Glyph) : Glyph :=
+  if codesOK si.seac = true ∧ codeName si.seac.base ∉ comp ∧ codeName si.seac.accent ∉ comp then
+    match lookupG gs (codeName si.seac.base), lookupG gs (codeName si.seac.accent) with
+    | some base, some accent => composite own base accent.cmds si.seac
+    | _, _ => own
+  else own
+
+/-- `resolvedGlyph` reads only glyphs that are not composites -/
+theorem resolvedGlyph_congr (comp : List Bytes) (g1 g2 : List (Bytes × Glyph)) (si : SeacInfo) (own : Glyph)
+    (h : ∀ n, n ∉ comp → lookupG g1 n = lookupG g2 n) : resolvedGlyph comp g1 si own = resolvedGlyph comp g2 si own := by
+  unfold resolvedGlyph
+  split
+  · rename_i hc
+    rw [h _ hc.2.1, h _ hc.2.2]
+  · rfl
+
+/-- `resolvedGlyph` depends on `comp` as a set only -/
+theorem resolvedGlyph_comp_congr (c1 c2 : List Bytes) (gs : List (Bytes × Glyph)) (si : SeacInfo) (own : Glyph)
+    (h : ∀ n, n ∈ c1 ↔ n ∈ c2) : resolvedGlyph c1 gs si own = resolvedGlyph c2 gs si own := by
+  unfold resolvedGlyph
+  simp only [h]
+
+theorem resolveOne_lookup_self (comp : List Bytes) (gs g1 : List (Bytes × Glyph)) (si : SeacInfo)
+    (h : resolveOne comp gs si = some g1) (hs : si.name ∈ comp) :
+    lookupG g1 si.name = (lookupG gs si.name).map (resolvedGlyph comp gs si) := by
+  have skip : ∀ (hr : ∀ own, resolvedGlyph comp gs si own = own),
+      lookupG gs si.name = (lookupG gs si.name).map (resolvedGlyph comp gs si) := by
+    intro hr
+    cases lookupG gs si.name with
+    | none => rfl
+    | some o => simp [hr]
+  by_cases hc : codesOK si.seac = true
+  · by_cases hb : codeName si.seac.base ∈ comp ∨ codeName si.seac.accent ∈ comp
+    · rw [resolveOne_parts_composite comp gs si hb] at h
+      cases h
+      apply skip
+      intro own
+      unfold resolvedGlyph
+      rw [if_neg]
+      intro hh
+      rcases hb with hb | hb
+      · exact hh.2.1 hb
+      · exact hh.2.2 hb
+    · have hb1 : codeName si.seac.base ∉ comp := fun e => hb (Or.inl e)
+      have hb2 : codeName si.seac.accent ∉ comp := fun e => hb (Or.inr e)
+      cases hl1 : lookupG gs (codeName si.seac.base) with
+      | none =>
+        rw [resolveOne_skip comp gs si (Or.inr (Or.inr (Or.inr (Or.inl hl1))))] at h
+        cases h
+        apply skip
+        intro own
+        simp [resolvedGlyph, hl1]
+      | some base =>
+        cases hl2 : lookupG gs (codeName si.seac.accent) with
+        | none =>
+          rw [resolveOne_skip comp gs si (Or.inr (Or.inr (Or.inr (Or.inr hl2))))] at h
+          cases h
+          apply skip
+          intro own
+          simp [resolvedGlyph, hl1, hl2]
+        | some accent =>
+          cases hl3 : lookupG gs si.name with
+          | none =>
+            have hnone : resolveOne comp gs si = none := by
+              unfold resolveOne
+              simp only [hc, Bool.not_true, Bool.false_eq_true, if_false, contains_false_of_not_mem hb1,
+                contains_false_of_not_mem hb2, Bool.or_self, hl1, hl2, hl3]
+            rw [hnone] at h
+            cases h
+          | some own =>
+            have hne : codeName si.seac.accent ≠ si.name := fun e => hb2 (e ▸ hs)
+            rw [resolveOne_composite comp gs si own base accent ⟨hc, hb1, hb2, hl1, hl2, hl3⟩ hne] at h
+            cases h
+            rw [lookupG_setG]
+            have : si.name ∈ names gs := by
+              rw [← lookupG_isSome_iff, hl3]; rfl
+            simp [this, resolvedGlyph, hc, hb1, hb2, hl1, hl2]
+  · have hc' : codesOK si.seac = false := by
+      cases hcc : codesOK si.seac
+      · rfl
+      · exact absurd hcc hc
+    rw [resolveOne_skip comp gs si (Or.inl hc')] at h
+    cases h
+    apply skip
+    intro own
+    simp [resolvedGlyph, hc']
+
+/-- **what the loop computes**, when `comp` holds the names of all composites and no name is recorded twice: a
+composite `si` becomes `resolvedGlyph comp gs si own`, computed from the glyphs *as decoded*; this does not mention
+the position of `si` in the list -/
+theorem resolveSeacs_lookup (comp : List Bytes) : ∀ (ss : List SeacInfo) (gs gs' : List (Bytes × Glyph)),
+    resolveSeacs comp ss gs = some gs' → (∀ s ∈ ss, s.name ∈ comp) → (ss.map (·.name)).Nodup →
+    ∀ si ∈ ss, lookupG gs' si.name = (lookupG gs si.name).map (resolvedGlyph comp gs si) := by
+  intro ss
+  induction ss with
+  | nil => intro gs gs' _ _ _ si hsi; cases hsi
+  | cons s rest ih =>
+    intro gs gs' h hcomp hnd si hsi
+    simp only [List.map_cons, List.nodup_cons, List.mem_map, not_exists, not_and] at hnd
+    unfold resolveSeacs at h
+    cases h1 : resolveOne comp gs s with
+    | none => simp [h1] at h
+    | some g1 =>
+      simp only [h1] at h
+      have hsc : s.name ∈ comp := hcomp s List.mem_cons_self
+      rcases List.mem_cons.mp hsi with e | e
+      · subst e
+        rw [resolveSeacs_unchanged comp rest g1 gs' si.name h (fun t ht e => hnd.1 t ht e)]
+        exact resolveOne_lookup_self comp gs g1 si h1 hsc
+      · have hne : si.name ≠ s.name := fun e' => hnd.1 si e e'
+        rw [ih g1 gs' h (fun t ht => hcomp t (List.mem_cons_of_mem _ ht)) hnd.2 si e,
+          resolveOne_other comp gs g1 s si.name h1 hne]
+        congr 1
+        funext own
+        apply resolvedGlyph_congr
+        intro n hn
+        exact resolveOne_other comp gs g1 s n h1 (fun e' => hn (e' ▸ hsc))
+
+/-- **order independence**: two orders of the same composites (distinct names, all in `comp`) give glyph maps that
+agree on every name -/
+theorem resolveSeacs_perm (comp : List Bytes) (ss1 ss2 : List SeacInfo) (gs g1 g2 : List (Bytes × Glyph))
+    (hp : ss1.Perm ss2) (hnd : (ss1.map (·.name)).Nodup) (hcomp : ∀ s ∈ ss1, s.name ∈ comp)
+    (h1 : resolveSeacs comp ss1 gs = some g1) (h2 : resolveSeacs comp ss2 gs = some g2) :
+    names g1 = names g2 ∧ ∀ n, lookupG g1 n = lookupG g2 n := by
+  refine ⟨(resolveSeacs_names comp ss1 gs g1 h1).trans (resolveSeacs_names comp ss2 gs g2 h2).symm, ?_⟩
+  intro n
+  have hnd2 : (ss2.map (·.name)).Nodup := (hp.map _).nodup_iff.mp hnd
+  have hcomp2 : ∀ s ∈ ss2, s.name ∈ comp := fun s hs => hcomp s (hp.mem_iff.mpr hs)
+  by_cases hex : ∃ si ∈ ss1, si.name = n
+  · obtain ⟨si, hsi, rfl⟩ := hex
+    rw [resolveSeacs_lookup comp ss1 gs g1 h1 hcomp hnd si hsi,
+      resolveSeacs_lookup comp ss2 gs g2 h2 hcomp2 hnd2 si (hp.mem_iff.mp hsi)]
+  · have hn1 : ∀ s ∈ ss1, s.name ≠ n := fun s hs e => hex ⟨s, hs, e⟩
+    have hn2 : ∀ s ∈ ss2, s.name ≠ n := fun s hs => hn1 s (hp.mem_iff.mpr hs)
+    rw [resolveSeacs_unchanged comp ss1 gs g1 n h1 hn1, resolveSeacs_unchanged comp ss2 gs g2 n h2 hn2]
+
+/-- two glyph lists with the same names (no name twice) and the same glyph under every name are equal -/
+theorem glyphs_ext : ∀ (g1 g2 : List (Bytes × Glyph)), names g1 = names g2 → (names g1).Nodup →
+    (∀ n, lookupG g1 n = lookupG g2 n) → g1 = g2 := by
+  intro g1
+  induction g1 with
+  | nil => intro g2 hn _ _; cases g2 with
+    | nil => rfl
+    | cons q r => simp [names] at hn
+  | cons p r1 ih =>
+    intro g2 hn hnd hl
+    cases g2 with
+    | nil => simp [names] at hn
+    | cons q r2 =>
+      simp only [names, List.map_cons, List.cons.injEq] at hn
+      have hnd' := hnd
+      simp only [names, List.map_cons, List.nodup_cons] at hnd'
+      have hpq : p = q := by
+        have := hl p.1
+        rw [lookupG_cons, lookupG_cons] at this
+        simp only [if_true, hn.1.symm] at this
+        simp only [Option.some.injEq] at this
+        exact Prod.ext hn.1 this
+      subst hpq
+      congr 1
+      apply ih r2 hn.2 hnd'.2
+      intro n
+      by_cases e : p.1 = n
+      · subst e
+        have a1 : lookupG r1 p.1 = none := (lookupG_eq_none_iff r1 p.1).mpr hnd'.1
+        have a2 : lookupG r2 p.1 = none := by
+          rw [lookupG_eq_none_iff]; unfold names; rw [← hn.2]; exact hnd'.1
+        rw [a1, a2]
+      · have := hl n
+        rw [lookupG_cons, lookupG_cons] at this
+        simpa [e] using this
+
+/-- the loop depends on `comp` as a set only -/
+theorem resolveOne_comp_congr (c1 c2 : List Bytes) (h : ∀ n, n ∈ c1 ↔ n ∈ c2) (gs : List (Bytes × Glyph)) (si : SeacInfo) :
+    resolveOne c1 gs si = resolveOne c2 gs si := by
+  have hc : ∀ n, c1.contains n = c2.contains n := by
+    intro n
+    rw [Bool.eq_iff_iff, List.contains_iff_mem, List.contains_iff_mem]
+    exact h n
+  unfold resolveOne
+  simp only [hc]
+
+theorem resolveSeacs_comp_congr (c1 c2 : List Bytes) (h : ∀ n, n ∈ c1 ↔ n ∈ c2) :
+    ∀ (ss : List SeacInfo) (gs : List (Bytes × Glyph)), resolveSeacs c1 ss gs = resolveSeacs c2 ss gs := by
+  intro ss
+  induction ss with
+  | nil => intro gs; rfl
+  | cons s rest ih =>
+    intro gs
+    unfold resolveSeacs
+    rw [resolveOne_comp_congr c1 c2 h gs s]
+    cases resolveOne c2 gs s with
+    | none => rfl
+    | some g1 => exact ih g1
+
+/-! ### size: composites cannot blow up -/
+
+/-- the largest number of commands of a glyph in the list -/
+def maxCmds : List (Bytes × Glyph) → Nat
+  | [] => 0
+  | p :: r => max p.2.cmds.length (maxCmds r)
+
+theorem le_maxCmds {gs : List (Bytes × Glyph)} {p : Bytes × Glyph} (h : p ∈ gs) : p.2.cmds.length ≤ maxCmds gs := by
+  induction gs with
+  | nil => cases h
+  | cons q r ih =>
+    unfold maxCmds
+    rcases List.mem_cons.mp h with e | e
+    · subst e; exact Nat.le_max_left _ _
+    · exact Nat.le_trans (ih e) (Nat.le_max_right _ _)
+
+theorem mem_setG {gs : List (Bytes × Glyph)} {n : Bytes} {g : Glyph} {p : Bytes × Glyph} (h : p ∈ setG gs n g) :
+    p ∈ gs ∨ p = (n, g) := by
+  unfold setG at h
+  obtain ⟨q, hq, e⟩ := List.mem_map.mp h
+  by_cases c : q.1 = n
+  · simp [c] at e; exact Or.inr e.symm
+  · simp [c] at e; subst e; exact Or.inl hq
+
+/-- one turn: a glyph of the new list is a glyph of the old list, or it is made of two glyphs of the old list whose
+names are not in `comp` -/
+theorem resolveOne_mem (comp : List Bytes) (gs g1 : List (Bytes × Glyph)) (si : SeacInfo)
+    (h : resolveOne comp gs si = some g1) (p : Bytes × Glyph) (hp : p ∈ g1) :
+    p ∈ gs ∨ ∃ bn an base accent, bn ∉ comp ∧ an ∉ comp ∧ lookupG gs bn = some base ∧ lookupG gs an = some accent ∧
+      p.2.cmds.length ≤ base.cmds.length + max base.cmds.length accent.cmds.length := by
+  unfold resolveOne at h
+  split at h
+  · cases h; exact Or.inl hp
+  · dsimp only at h
+    split at h
+    · cases h; exact Or.inl hp
+    · rename_i hcont
+      simp only [Bool.or_eq_true, not_or, Bool.not_eq_true] at hcont
+      split at h
+      · rename_i base accent hb ha
+        split at h
+        · cases h
+        · cases h
+          rcases mem_setG hp with e | e
+          · exact Or.inl e
+          · refine Or.inr ⟨_, _, base, accent, ?_, ?_, hb, ha, ?_⟩
+            · intro e'; rw [contains_true_of_mem e'] at hcont; cases hcont.1
+            · intro e'; rw [contains_true_of_mem e'] at hcont; cases hcont.2
+            · subst e
+              simp only [composite, List.length_append, List.length_map]
+              split
+              · exact Nat.add_le_add_left (Nat.le_max_left _ _) _
+              · exact Nat.add_le_add_left (Nat.le_max_right _ _) _
+      · cases h; exact Or.inl hp
+
+/-- **size bound**: when `comp` holds the names of all composites, every glyph after the loop has at most twice as
+many commands as the largest glyph *as decoded* -/
+theorem resolveSeacs_size (comp : List Bytes) (gs0 : List (Bytes × Glyph)) :
+    ∀ (ss : List SeacInfo) (gs gs' : List (Bytes × Glyph)),
+      resolveSeacs comp ss gs = some gs' → (∀ s ∈ ss, s.name ∈ comp) →
+      (∀ n, n ∉ comp → lookupG gs n = lookupG gs0 n) → (∀ p ∈ gs, p.2.cmds.length ≤ 2 * maxCmds gs0) →
+      ∀ p ∈ gs', p.2.cmds.length ≤ 2 * maxCmds gs0 := by
+  intro ss
+  induction ss with
+  | nil => intro gs gs' h _ _ hb; simp [resolveSeacs] at h; subst h; exact hb
+  | cons s rest ih =>
+    intro gs gs' h hcomp hun hb
+    unfold resolveSeacs at h
+    cases h1 : resolveOne comp gs s with
+    | none => simp [h1] at h
+    | some g1 =>
+      simp only [h1] at h
+      have hsc : s.name ∈ comp := hcomp s List.mem_cons_self
+      refine ih g1 gs' h (fun t ht => hcomp t (List.mem_cons_of_mem _ ht)) ?_ ?_
+      · intro n hn
+        rw [resolveOne_other comp gs g1 s n h1 (fun e => hn (e ▸ hsc))]
+        exact hun n hn
+      · intro p hp
+        rcases resolveOne_mem comp gs g1 s h1 p hp with e | ⟨bn, an, base, accent, hbn, han, hb1, ha1, hlen⟩
+        · exact hb p e
+        · rw [hun bn hbn] at hb1
+          rw [hun an han] at ha1
+          have m1 := le_maxCmds (lookupG_mem hb1)
+          have m2 := le_maxCmds (lookupG_mem ha1)
+          simp only at m1 m2
+          have : max base.cmds.length accent.cmds.length ≤ maxCmds gs0 := Nat.max_le.mpr ⟨m1, m2⟩
+          omega
+
+theorem resolveSeacs_size_bound (comp : List Bytes) (ss : List SeacInfo) (gs gs' : List (Bytes × Glyph))
+    (h : resolveSeacs comp ss gs = some gs') (hcomp : ∀ s ∈ ss, s.name ∈ comp) :
+    ∀ p ∈ gs', p.2.cmds.length ≤ 2 * maxCmds gs :=
+  resolveSeacs_size comp gs ss gs gs' h hcomp (fun _ _ => rfl)
+    (fun p hp => Nat.le_trans (le_maxCmds hp) (by omega))
+
+/-- the total number of commands -/
+def totalCmds (gs : List (Bytes × Glyph)) : Nat := (gs.map (fun p => p.2.cmds.length)).sum
+
+theorem totalCmds_le (gs : List (Bytes × Glyph)) (B : Nat) (h : ∀ p ∈ gs, p.2.cmds.length ≤ B) :
+    totalCmds gs ≤ gs.length * B := by
+  unfold totalCmds
+  induction gs with
+  | nil => simp
+  | cons p r ih =>
+    simp only [List.map_cons, List.sum_cons, List.length_cons]
+    have := ih (fun q hq => h q (List.mem_cons_of_mem _ hq))
+    have := h p List.mem_cons_self
+    rw [Nat.add_mul]
+    omega
 
 /-! ## `.notdef` -/
 
@@ -652,7 +1000,7 @@ theorem extract_ok {vm : VM} {dsc : List (String × String)} {f : Font} (h : ext
       asDict vm (dictLookup fd "Private") = some pd ∧ encodingOf vm (dictLookup fd "Encoding") = some enc ∧
       asDict vm (dictLookup fd "CharStrings") = some cs ∧
       decodeAll (subrsOf vm pd (lenIVOf pd)) (lenIVOf pd) (csEntries vm cs) = .ok (gs, ss) ∧
-      resolveSeacs ss gs = some gs1 ∧
+      resolveSeacs (compositeNames ss) ss gs = some gs1 ∧
       f = { info := infoOf vm fd fi fm, priv := privOf vm pd, glyphs := addNotdef gs1,
             encoding := fixEncoding (addNotdef gs1) enc, dates := datesOf dsc } := by
   unfold extract at h
@@ -715,7 +1063,7 @@ theorem extract_no_panic (vm : VM) (dsc : List (String × String)) (site : Strin
                   split at h
                   · rename_i hres
                     obtain ⟨_, h2, h3, _⟩ := decodeAll_ok _ _ _ gs ss hdec
-                    obtain ⟨g', hg, _⟩ := resolveSeacs_some ss gs (by
+                    obtain ⟨g', hg, _⟩ := resolveSeacs_some (compositeNames ss) ss gs (by
                       intro si hsi
                       rw [h2]; rw [h3] at hsi
                       exact seacsOf_names _ _ _ si hsi)
@@ -753,7 +1101,7 @@ theorem mem_csEntries (vm : VM) (cs : List (Name × Obj)) (n : Bytes) (v : Optio
 theorem csEntries_sorted (vm : VM) (cs : List (Name × Obj)) : SortedBy (csEntries vm cs) := sortE_sorted _
 
 theorem extract_ok_stage {vm : VM} {dsc : List (String × String)} {f : Font} (h : extract vm dsc = .ok f) :
-    ∃ enc gs ss gs1, stageOf vm = some (enc, gs, ss) ∧ resolveSeacs ss gs = some gs1 ∧
+    ∃ enc gs ss gs1, stageOf vm = some (enc, gs, ss) ∧ resolveSeacs (compositeNames ss) ss gs = some gs1 ∧
       f.glyphs = addNotdef gs1 ∧ f.encoding = fixEncoding (addNotdef gs1) enc := by
   obtain ⟨fd, fi, fm, pd, enc, cs, gs, ss, gs1, h1, h2, h3, h4, h5, h6, h7, h8, h9, rfl⟩ := extract_ok h
   refine ⟨enc, gs, ss, gs1, ?_, h9, rfl, rfl⟩
@@ -879,10 +1227,27 @@ end PsVerif.Proofs.T1Read
 #print axioms PsVerif.Proofs.T1Read.resolveSeacs_names
 #print axioms PsVerif.Proofs.T1Read.resolveOne_other
 #print axioms PsVerif.Proofs.T1Read.resolveSeacs_unchanged
+#print axioms PsVerif.Proofs.T1Read.contains_false_of_not_mem
+#print axioms PsVerif.Proofs.T1Read.contains_true_of_mem
 #print axioms PsVerif.Proofs.T1Read.resolveOne_composite
 #print axioms PsVerif.Proofs.T1Read.resolveOne_composite_self
+#print axioms PsVerif.Proofs.T1Read.resolveOne_parts_composite
 #print axioms PsVerif.Proofs.T1Read.resolveOne_skip
 #print axioms PsVerif.Proofs.T1Read.resolveSeacs_composite
+#print axioms PsVerif.Proofs.T1Read.resolvedGlyph_congr
+#print axioms PsVerif.Proofs.T1Read.resolvedGlyph_comp_congr
+#print axioms PsVerif.Proofs.T1Read.resolveOne_lookup_self
+#print axioms PsVerif.Proofs.T1Read.resolveSeacs_lookup
+#print axioms PsVerif.Proofs.T1Read.resolveSeacs_perm
+#print axioms PsVerif.Proofs.T1Read.glyphs_ext
+#print axioms PsVerif.Proofs.T1Read.resolveOne_comp_congr
+#print axioms PsVerif.Proofs.T1Read.resolveSeacs_comp_congr
+#print axioms PsVerif.Proofs.T1Read.le_maxCmds
+#print axioms PsVerif.Proofs.T1Read.mem_setG
+#print axioms PsVerif.Proofs.T1Read.resolveOne_mem
+#print axioms PsVerif.Proofs.T1Read.resolveSeacs_size
+#print axioms PsVerif.Proofs.T1Read.resolveSeacs_size_bound
+#print axioms PsVerif.Proofs.T1Read.totalCmds_le
 #print axioms PsVerif.Proofs.T1Read.lookupG_addNotdef
 #print axioms PsVerif.Proofs.T1Read.lookupG_addNotdef_present
 #print axioms PsVerif.Proofs.T1Read.lookupG_addNotdef_absent
